@@ -83,15 +83,17 @@ def build(h, rows, vcls="Vertex"):
     """vertex `a` whose links are one link per row, other end b_i (or a itself for a self-loop)."""
     a = h.vertex("a", vcls)
     links, others = [], []
+    api = bool(getattr(h, "aux", None))     # the tree keeps auxiliary state: links are made by their constructors, in a.links order
     for i, (cls, pos) in enumerate(rows):
         b = a if pos == "both" else h.vertex(f"b{i}", vcls)
         ends = {"v1": [a, b], "v2": [b, a], "both": [a, a]}[pos]
-        l = h.link(f"L{i}", cls, ends)
+        l = h.new(cls, f"L{i}", *ends) if api else h.link(f"L{i}", cls, ends)
         links.append(l)
         others.append(b)
-        if b is not a:
+        if b is not a and not api:
             b.fields["_links"] = Seq([l], "list")
-    a.fields["_links"] = Seq(links, "list")
+    if not api:
+        a.fields["_links"] = Seq(links, "list")
     h.settle()
     return a, links, others
 
